@@ -26,6 +26,7 @@ pub fn run_program(ops: &[Op], max_chans: usize) -> Result<World, Failure> {
     for op in ops {
         w.step(op)?;
     }
+    w.release_all()?;
     w.probe_all()?;
     Ok(w)
 }
@@ -45,7 +46,7 @@ impl Prop for C19 {
 
     fn strategy(_ctx: &Ctx) -> BoxedStrategy<Case> {
         //            create clone droptx droprx send recv region set server
-        world::program_strategy([3, 2, 3, 2, 8, 7, 1, 3, 2], 2, 60).prop_map(|ops| Case { ops }).boxed()
+        world::program_strategy([3, 2, 3, 2, 8, 7, 1, 3, 2, 0], 2, 60).prop_map(|ops| Case { ops }).boxed()
     }
 
     fn exec(_ctx: &Ctx, case: &Case) -> Result<Outcome, Failure> {
